@@ -2,6 +2,7 @@ P = dict(
     bin="egv_c06", trace="Trace_C06", level="model_checking",
     mc=[dict(module="MC_C06", quick_cfg="MC_C06.cfg", thorough_cfg="MC_C06_thorough.cfg", workers=8),
         dict(module="MC_C06", quick_cfg="MC_C06_control.cfg", expect_violation=True, coverage=False, workers=8)],
+    proofs=["Proof_C06"],
     required_events=["styled"],
     level_text="MC_C06 steps the transcribed call decompositions of styled rectangles (five rectangles) and circles (styled "
                "scanlines) call by call and compares the resulting map with the painting rule over the transcribed areas (one "
